@@ -21,8 +21,15 @@ Definition gen_methods : methods :=
 Definition lvar (v : nat) : nat := 2 * v.
 Definition svar (v : nat) : nat := 2 * v + 1.
 
-Inductive pdesc := PLocal (v : nat) (name : N) | PStack (v : nat).
-Inductive paccess := PaCurrent | PaBool | PaRepr | PaGetAttr | PaSetAttr.
+(* local(name, unbound_message=msg)  /  stack(unbound_message=msg), stack("twin", unbound_message=msg) *)
+Inductive pdesc := PLocal (v : nat) (name : N) (msg : option N) | PStack (v : nat) (twin : bool) (msg : option N).
+Inductive paccess :=
+| PaCurrent | PaBool | PaRepr | PaGetAttr | PaSetAttr
+| PaMessage                    (* the text of the RuntimeError of _get_current_object *)
+| PaEntry (e : nat).           (* descriptor lookup of entry e of the regenerated proxy_table *)
+(* the objects stored by the harness have one attribute holding another object: its identity *)
+Definition twin_of (x : N) : N := (x + 1001)%N.
+Definition get_name (twin : bool) (x : N) : N := if twin then twin_of x else x.
 
 Inductive op :=
 | OpSet (v : nat) (name val : N)      (* local.name = val *)
@@ -40,7 +47,10 @@ Inductive op :=
 | OpMkProxy (d : pdesc)               (* local(name) / stack() *)
 | OpProxy (i : nat) (a : paccess)     (* use proxy number i *)
 | OpMwOpen                            (* LocalManager.make_middleware(app)(environ, start_response): wrap the response iterable *)
-| OpMwDrop.                           (* the last reference to such an iterable goes away / it is garbage-collected here *)
+| OpMwDrop                            (* the last reference to such an iterable goes away / it is garbage-collected here *)
+| OpMwClose (ls : list (bool * nat)) (ac : option (nat * N * N)).
+    (* close() of an iterable wrapped by LocalManager(ls).make_middleware; ac = what the application's own
+       iterable does in its close(): local v . name = val (None: it has no close) *)
 (* closing such an iterable is OpCleanup: by the structure of make_middleware pinned in C18/Gen.v
    (middleware_cleanup_only_on_close) the ONLY thing the middleware arranges is that close() calls
    cleanup() in the closing context; creating or discarding the iterable schedules nothing. *)
@@ -67,36 +77,81 @@ Definition release_one (M : methods) (w : world) (c : nat) (l : bool * nat) : wo
   if fst l then fst (call (m_srelease M) [] (svar (snd l)) w c)
   else fst (call (m_lrelease M) [] (lvar (snd l)) w c).
 
-(* LocalProxy._get_current_object for the two closures of LocalProxy.__init__ :
-   inl x = the bound object, inr o = RuntimeError (o = ORuntimeError) or a model error *)
+(* LocalProxy._get_current_object: the regenerated closures gco_local / gco_stack interpreted.
+   inl x = the bound object, inr ORuntimeError = unbound, inr o = another exception / model error *)
+Definition conv_local (o : out) : N + out :=
+  match o with
+  | OVal x => inl x
+  | OAttrError => match gco_local with GcoLocal EAttributeError => inr ORuntimeError | _ => inr OAttrError end
+  | OInvalid => inr OInvalid
+  | _ => inr OStuck
+  end.
+Definition conv_stack (twin : bool) (o : out) : N + out :=
+  match o with
+  | OVal x =>
+      match gco_stack with
+      | GcoStack TIsNone => inl (get_name twin x)
+      | GcoStack TFalsy => if truthy x then inl (get_name twin x) else inr ORuntimeError
+      | _ => inr OStuck
+      end
+  | ONone => match gco_stack with GcoStack _ => inr ORuntimeError | _ => inr OStuck end
+  | OInvalid => inr OInvalid
+  | _ => inr OStuck
+  end.
 Definition gco (M : methods) (d : pdesc) (w : world) (c : nat) : world * (N + out) :=
   match d with
-  | PLocal v name =>
-      let '(w', o) := call (m_getattr M) [name] (lvar v) w c in
-      (w', match o with OVal x => inl x | OAttrError => inr ORuntimeError | OInvalid => inr OInvalid | _ => inr OStuck end)
-  | PStack v =>
-      let '(w', o) := call (m_top M) [] (svar v) w c in
-      (w', match o with OVal x => inl x | ONone => inr ORuntimeError | OInvalid => inr OInvalid | _ => inr OStuck end)
+  | PLocal v name _ =>
+      let '(w', o) := call (m_getattr M) [name] (lvar v) w c in (w', conv_local o)
+  | PStack v tw _ =>
+      let '(w', o) := call (m_top M) [] (svar v) w c in (w', conv_stack tw o)
+  end.
+Definition pmsg (d : pdesc) : option N := match d with PLocal _ _ m => m | PStack _ _ m => m end.
+
+(* _ProxyLookup.__get__ : the regenerated exception flow (lookup_catch) and fallback table interpreted *)
+Definition entry_unbound (e : nat) : out :=
+  match nth_error proxy_table e with
+  | Some pe =>
+      match lookup_catch with
+      | ERuntimeError => match pe_fallback pe with FbNone => ORuntimeError | k => OFallback k end
+      | _ => ORuntimeError
+      end
+  | None => OInvalid
+  end.
+Definition unbound_out (a : paccess) (msg : option N) : out :=
+  match a with
+  | PaCurrent => ORuntimeError
+  | PaMessage => OMsg msg
+  | PaBool => match entry_unbound entry_bool with
+              | OFallback FbFalse => OBool false | OFallback FbTrue => OBool true | o => o end
+  | PaRepr => match entry_unbound entry_repr with OFallback FbUnboundRepr => ORepr None | o => o end
+  | PaGetAttr => entry_unbound entry_getattr
+  | PaSetAttr => entry_unbound entry_setattr
+  | PaEntry e => entry_unbound e
+  end.
+Definition bound_out (a : paccess) (x : N) : out :=
+  match a with
+  | PaBool => OBool (truthy x)
+  | PaRepr => ORepr (Some x)
+  | PaEntry e => match nth_error proxy_table e with Some _ => OFwd e x | None => OInvalid end
+  | PaCurrent | PaGetAttr | PaSetAttr | PaMessage => OVal x
+  end.
+Definition proxy_out (a : paccess) (msg : option N) (r : N + out) : out :=
+  match r with
+  | inl x => bound_out a x
+  | inr ORuntimeError => unbound_out a msg
+  | inr o => o
   end.
 
-(* _ProxyLookup.__get__ for __bool__, __repr__, __getattr__, __setattr__ and the direct call *)
-Definition proxy_out (a : paccess) (r : N + out) : out :=
-  match r with
-  | inl x =>
-      match a with
-      | PaBool => OBool (truthy x)
-      | PaRepr => ORepr (Some x)
-      | PaCurrent | PaGetAttr | PaSetAttr => OVal x
+(* ClosingIterator.close(): the regenerated callback order interpreted *)
+Definition close_cb_run (M : methods) (c : nat) (ls : list (bool * nat)) (ac : option (nat * N * N))
+    (w : world) (cb : close_cb) : world :=
+  match cb with
+  | CbIterableClose =>
+      match ac with
+      | Some (v, name, val) => fst (call (m_setattr M) [name; val] (lvar v) w c)
+      | None => w
       end
-  | inr ORuntimeError =>
-      match a with
-      | PaBool => match proxy_bool_fallback with Some b => OBool b | None => ORuntimeError end
-      | PaRepr => if proxy_repr_has_fallback then ORepr None else ORuntimeError
-      | PaGetAttr => if proxy_getattr_has_fallback then OStuck else ORuntimeError
-      | PaSetAttr => if proxy_setattr_has_fallback then OStuck else ORuntimeError
-      | PaCurrent => ORuntimeError
-      end
-  | inr o => o
+  | CbGiven => fold_left (fun w' l => release_one M w' c l) ls w
   end.
 
 Definition step (M : methods) (w : world) (co : nat * op) : world * out :=
@@ -134,12 +189,17 @@ Definition step (M : methods) (w : world) (co : nat * op) : world * out :=
   | OpProxy i a =>
       match nth_error (w_prox w) i with
       | None => (w, OInvalid)
-      | Some d => let '(w', r) := gco M d w c in (w', proxy_out a r)
+      | Some d => let '(w', r) := gco M d w c in (w', proxy_out a (pmsg d) r)
       end
   | OpMwOpen | OpMwDrop =>
       match nth_error (w_ctx w) c with
       | None => (w, OInvalid)
       | Some _ => (w, ONone)
+      end
+  | OpMwClose ls ac =>
+      match nth_error (w_ctx w) c with
+      | None => (w, OInvalid)
+      | Some _ => (fold_left (close_cb_run M c ls ac) closing_order w, ONone)
       end
   end.
 
@@ -228,14 +288,41 @@ Definition srelease_one (w : sworld) (c : nat) (l : bool * nat) : sworld :=
 (* the object a proxy denotes in a context holding the values m: None = nothing bound *)
 Definition bound_of (look : nat -> option obj) (d : pdesc) : option N :=
   match d with
-  | PLocal v name => match look (lvar v) with Some (ODict dd) => dict_get dd name | _ => None end
-  | PStack v => match look (svar v) with Some (OList l) => last_opt l | _ => None end
+  | PLocal v name _ => match look (lvar v) with Some (ODict dd) => dict_get dd name | _ => None end
+  | PStack v tw _ => match look (svar v) with
+                     | Some (OList l) => option_map (get_name tw) (last_opt l)
+                     | _ => None end
   end.
 Definition bound_in (m : list (nat * obj)) (d : pdesc) : option N := bound_of (rget m) d.
-Definition proxy_spec (a : paccess) (b : option N) : out :=
+(* an unbound proxy: RuntimeError, except where the entry of the proxied name carries a fallback *)
+Definition entry_unbound_spec (e : nat) : out :=
+  match nth_error proxy_table e with
+  | Some pe => match pe_fallback pe with FbNone => ORuntimeError | k => OFallback k end
+  | None => OInvalid
+  end.
+Definition proxy_spec (a : paccess) (msg : option N) (b : option N) : out :=
   match b with
-  | Some x => match a with PaBool => OBool (truthy x) | PaRepr => ORepr (Some x) | _ => OVal x end
-  | None => match a with PaBool => OBool false | PaRepr => ORepr None | _ => ORuntimeError end
+  | Some x => bound_out a x
+  | None =>
+      match a with
+      | PaBool => OBool false
+      | PaRepr => ORepr None
+      | PaMessage => OMsg msg
+      | PaEntry e => entry_unbound_spec e
+      | PaCurrent | PaGetAttr | PaSetAttr => ORuntimeError
+      end
+  end.
+
+(* request end on the reference model: the application's own close, then cleanup *)
+Definition sclose_cb_run (c : nat) (ls : list (bool * nat)) (ac : option (nat * N * N))
+    (w : sworld) (cb : close_cb) : sworld :=
+  match cb with
+  | CbIterableClose =>
+      match ac with
+      | Some (v, name, val) => fst (scall sp_setattr [name; val] (lvar v) w c)
+      | None => w
+      end
+  | CbGiven => fold_left (fun w' l => srelease_one w' c l) ls w
   end.
 
 Definition sstep (w : sworld) (co : nat * op) : sworld * out :=
@@ -272,13 +359,18 @@ Definition sstep (w : sworld) (co : nat * op) : sworld * out :=
       end
   | OpProxy i a =>
       match nth_error (sw_prox w) i, nth_error (sw_ctx w) c with
-      | Some d, Some m => (w, proxy_spec a (bound_in m d))
+      | Some d, Some m => (w, proxy_spec a (pmsg d) (bound_in m d))
       | _, _ => (w, OInvalid)
       end
   | OpMwOpen | OpMwDrop =>
       match nth_error (sw_ctx w) c with
       | None => (w, OInvalid)
       | Some _ => (w, ONone)
+      end
+  | OpMwClose ls ac =>
+      match nth_error (sw_ctx w) c with
+      | None => (w, OInvalid)
+      | Some _ => (fold_left (sclose_cb_run c ls ac) [CbIterableClose; CbGiven] w, ONone)
       end
   end.
 
